@@ -8,7 +8,8 @@ ID = 'C04'
 MASK = X.M_MEM | X.M_RESULTS
 TOL = F(1, 10 ** 6)
 ASSUMPTIONS = ['memory demands are Python floats (the harness builds segments with float fields; CPython sum() treats '
-               'ints without compensation); size of IEEE drift between reconciles is measured (tolerance 1e-6 GB), not proved']
+               'ints without compensation); the monitor tolerance of 1e-6 GB for the IEEE drift between reconciles is justified at the harness scale by theorem '
+               'C04_float_drift_harness_scale (<= 512 GB demands, <= 16 containers, <= 400000 container-ticks)']
 
 
 def monitor(run):
